@@ -82,16 +82,22 @@ def invoke(fn, names_, args, environment, pos):
         if isinstance(arg, NodeSpread):
             argvalue = arg.evaluate(environment)
             if argvalue.isMap():
-                for key, value in argvalue.value.items():
-                    values.append(value)
+                for key in argvalue.getSortedKeys():
+                    values.append(argvalue.value[key])
                     if key.isString():
                         names.append(key.value)
                     else:
                         names.append(None)
-            else:
-                for value in argvalue.value:
+            elif argvalue.isList() or argvalue.isSet():
+                for value in argvalue.asList().value:
                     values.append(value)
                     names.append(None)
+            else:
+                raise CklRuntimeError(
+                    ValueString("ERROR"),
+                    f"Cannot spread {argvalue.type()}",
+                    pos,
+                )
         else:
             values.append(arg.evaluate(environment))
             names.append(names_[i])
@@ -1205,7 +1211,17 @@ class NodeList:
         for item in self.items:
             if isinstance(item, NodeSpread):
                 lst = item.evaluate(environment)
-                for value in lst.value:
+                if lst.isList() or lst.isSet():
+                    values = lst.asList().value
+                elif lst.isMap():
+                    values = lst.getSortedKeys()
+                else:
+                    raise CklRuntimeError(
+                        ValueString("ERROR"),
+                        f"Cannot spread {lst.type()}",
+                        self.pos,
+                    )
+                for value in values:
                     result.addItem(value)
             else:
                 result.addItem(item.evaluate(environment))
